@@ -65,7 +65,7 @@ Print Assumptions C03_step.
    The audit's test "buffer empty and idle for MaxOperationTime" and its reset are not atomic with
    Enqueue's count and insert: an Enqueue caught in between is counted, the audit zeroes the
    figure and raises audit-fail, and the operation is then outstanding with NeedsCapacity() = 0. *)
-Definition d7_cfg : cfg := mkCfg V2 4 false false 0 0 (10 * ms) (5 * ms) 0 0 [mkW 0 0 0] 0 0 0.
+Definition d7_cfg : cfg := mkCfg V2 4 false false 0 0 (10 * ms) (5 * ms) 0 0 [mkW 0 0 0] 0 0 0 0.
 Definition d7_labels : list label :=
   [AStart; AEnqueue (mkE false (Some 0%nat) 1 7 7 true 0 true);
    TAdvance (10 * ms); ITick TkAudit; ILoopAuditCheck; ILoopAuditConfirm; ARelease 0; IEnqInsert 0].
@@ -85,7 +85,7 @@ Print Assumptions C03_audit_race_refuted.
 
 (* non-vacuity: a run with a blocked caller, a batch that returns and one that is written off meets
    every side condition, and the figure follows the outstanding cost: 10, then 6, then 0 *)
-Definition nv_cfg : cfg := mkCfg V2 1 false false 0 0 0 (50 * ms) 0 0 [mkW 0 0 0] 0 0 0.
+Definition nv_cfg : cfg := mkCfg V2 1 false false 0 0 0 (50 * ms) 0 0 [mkW 0 0 0] 0 0 0 0.
 Definition nv_e (obj : nat) (cost dur : Z) : label := AEnqueue (mkE false (Some 0%nat) obj cost cost false dur false).
 Definition nv_labels1 : list label :=
   [AStart; nv_e 1 4 (20 * ms); IEnqInsert 0; nv_e 2 6 (500 * ms); IEnqInsert 1].
